@@ -96,6 +96,17 @@ CHECKS = {
         "Minimal type annotation and the lexer are bound only by running the round trip.",
         "TLA+ model of printer table vs grammar ladder (generated from code) + TLC; trace validation of real print/parse round trips",
         "6/C07"),
+ "C04": ("model_checking",
+        "TLC model-checks spec/C04_Macro.tla (the checker's trusted-evaluation and checked-expansion treatments of a macro step over all "
+        "combinations of reported / established sequents and trust levels; under the contract MacroSound they agree). Macro invocations "
+        "harvested from the final proofs of seeded library theorems and recursively from their expansions, mutated invocations and seeded "
+        "fresh propositional instances are each evaluated, expanded, and checked by the real checker at the default trust level; TLC judges "
+        "every invocation whose expansion is produced (spec/C04_MacroTrace.tla): the checker accepts it, with the conclusion that eval "
+        "reports and no additional hypotheses.",
+        "Trusted: TLC/SANY, interning of sequents through the structural codec. Invocations are those reachable from recorded proofs plus "
+        "mutations (quick ~700, thorough ~10^4); macros never invoked there are not covered. z3 steps are not re-run. veriT macros: see C18.",
+        "TLA+ spec of trusted vs expanded macro checking + TLC; trace validation of harvested real macro invocations (eval vs checked expansion)",
+        "6/C04"),
 }
 
 NOT_YET = {}
